@@ -1061,7 +1061,21 @@ func init() {
 		timerRecs = append(old[:len(old):len(old)], &timerRec{cell: p, d: args[0], f: f, armed: true})
 		return p
 	}
-	natives["time.NewTimer"] = natives["time.AfterFunc"]
+	// NewTimer: as AfterFunc without a callback, plus the channel C (capacity 1) that vTimerFire fills
+	natives["time.NewTimer"] = func(fr *frame, args []value) value {
+		p := natives["time.AfterFunc"](fr, args[:1]).(*value)
+		if st, ok := (*p).(structure); ok && len(st) > 0 {
+			ch := makeChan(1)
+			st[0] = ch
+			timerRecs[len(timerRecs)-1].c = ch
+			timerRecs[len(timerRecs)-1].elem = fr.i.prog.ImportedPackage("time").Type("Time").Type()
+		}
+		return p
+	}
+
+	// ---- reflect: not modelled; TypeOf yields a nil Type (net/http's initialiser only stores two of
+	// them to recognise in-memory readers, which then simply are not recognised)
+	natives["reflect.TypeOf"] = func(fr *frame, args []value) value { return iface{} }
 
 	// ---- errors
 	natives["errors.Is"] = func(fr *frame, args []value) value { return errorsIs(fr, args[0].(iface), args[1].(iface), 0) }
@@ -1082,6 +1096,8 @@ type timerRec struct {
 	d     value
 	f     value
 	armed bool
+	c     *chanv     // NewTimer: the channel that receives the expiry
+	elem  types.Type // its element type (time.Time)
 }
 
 var timerRecs []*timerRec
